@@ -63,6 +63,7 @@ type Executor struct {
 	writtenMemo map[*ssa.Function]map[string]bool
 	safety  bool
 	callBinds  []Val // captured-variable bindings of the closure being called modularly
+	localsMemo map[*ssa.Function][]localDecl
 	anchorLost bool // a contract refers to a source name the function no longer has
 }
 
